@@ -10,6 +10,7 @@ import BV.C09.Lemmas5
 import BV.C09.Lemmas6
 import BV.C09.Lemmas7
 import BV.C09.Lemmas8
+import BV.C09.Lemmas9
 import BV.Generated.C09
 namespace BV.C09
 open Spec
@@ -29,6 +30,11 @@ theorem bigToCompact_compactToBig (e m : Nat) (he : 3 ≤ e) (he' : e < 256)
 example : bigToCompact (compactToBig 0x1b0404cb) = 0x1b0404cb := by
   have := bigToCompact_compactToBig 0x1b 0x0404cb (by decide) (by decide) (by decide) (by decide)
   simpa using this
+
+/-- `BigToCompact` equals Bitcoin Core's `GetCompact` on every positive number of at most 254 bytes
+    (every 256-bit target). -/
+theorem bigToCompact_eq_spec (a : Nat) (ha : 0 < a) (hlen : byteLen a ≤ 254) :
+    bigToCompact (a : Int) = getCompact a := Lemmas.l9_b2c_eq_getCompact a ha hlen
 
 /-- Round trip on the second normal form `0x008000 ≤ mantissa < 0x010000` (mainnet's `0x1d00ffff`): the
     encoder produces it whenever the third significant byte would set the sign bit. -/
@@ -441,6 +447,13 @@ example : MedianTime.run MedianTime.new [("a", 7000), ("b", 7000), ("c", -1999),
     = [0, 0, 0, 0, 7] := by decide
 
 /-! ### whole header histories through `ProcessBlockHeader` -/
+
+/-- A header (whose hash meets its own target and whose time is not in the future) is accepted iff its
+    target is in `(0, powLimit]` and the context clauses hold. -/
+theorem header_verdict_ok_iff (p : Params) (chain : List Hdr) (h : Hdr) :
+    headerVerdict p chain h = .ok ↔
+      (0 < compactToBig h.bits ∧ compactToBig h.bits ≤ p.powLimit) ∧
+        checkBlockHeaderContext p chain h false = .ok := Lemmas.l7_verdict_ok_iff p chain h
 
 /-- Whatever sequence of headers is offered, the resulting chain is the old one extended by exactly the
     accepted headers; every accepted header has a target in `(0, powLimit]`; the time-stamp rule is kept. -/
